@@ -1397,11 +1397,11 @@ Definition parse_switch_stmt (s : pstate) : res nodeT :=
             let* (st, s3) := parse_simple_stmt s2 in Ok (Some st) s3
           else Ok None s2) in
        let* (semi, s4) := skipped (KOp OSemiColon) s3 in
-       let init := if semi then tag0 else None in
-       let tag1 := if semi then None else tag0 in
-       if cur_not s4 (KOp OBraceLeft) then
-         let* (st, s5) := parse_simple_stmt s4 in Ok (init, Some st) s5
-       else Ok (init, tag1) s4
+       if semi then
+         if cur_not s4 (KOp OBraceLeft) then
+           let* (st, s5) := parse_simple_stmt s4 in Ok (tag0, Some st) s5
+         else Ok (tag0, None) s4
+       else Ok (None, tag0) s4
      else Ok (None, None) s2) in
   let '(init, tag) := it in
   let s4 := upd_level s3 lp ln in
